@@ -433,8 +433,8 @@ func checkStatusLog(logFile, dirPrefix string, releaseAsked map[string]bool) *vx
 				}
 				for _, r := range recs[lo : i+1] {
 					detail := ""
-					if f := strings.SplitN(r.line, " ", 7); len(f) == 7 {
-						detail = " " + f[6]
+					if f := strings.SplitN(r.line, " ", 8); len(f) == 8 {
+						detail = " " + f[7]
 					}
 					out = append(out, fmt.Sprintf("pid %d -> state %d size %d%s", r.pid, r.newState, r.newSize, detail))
 				}
